@@ -31,9 +31,11 @@ CLAIMED = {
         "Machine-checked proof that the outputs of a call do not depend on the state (crop buffers, output arrays) "
         "left by any history of earlier calls, for both cropping back-ends and both pipelines, by reduction to the "
         "C13 window theorems (every buffer cell is defined by the crop) and the C08 block-loop theorem; object purity "
-        "(patterns, matchers, batch entry points) by differential histories.",
-        "Lean kernel + standard axioms; translator; EvalLocal (the evaluation reads only its own crop) and purity of "
-        "pattern/matcher objects are assumptions of the theorems exercised by the oracle only.",
+        "(patterns, matchers, batch entry points) by differential histories. For the composed pipeline model (log scaling -> "
+        "correlation map -> evaluation kernels) the locality of the per-crop function is itself proved, so the history "
+        "theorems hold for it with no hypothesis left (fast_history_spec / full_history_spec).",
+        "Lean kernel + standard axioms; translator; purity of pattern/matcher objects is exercised by the oracle only "
+        "(incl. patterns whose parameters are changed after use, reuse across related shapes).",
         "Lean 4 proof (state-independence + induction over history) + differential histories",
         "DESIGN.md §7 C09"),
     "C18": (
@@ -71,7 +73,8 @@ CLAIMED = {
         "order preserved; array-shape dispatch of both index layouts (identical in regularize_indices and "
         "Match.calc_coords); drop_zero removes exactly (0,0); exact correspondence on dyadic lattices.",
         "Lean kernel + standard axioms; translator; NumPy dot/solve/concatenate semantics pinned textually and compared; "
-        "polar/cartesian round trip (trigonometry) is checked by the oracle only.",
+        "make_polar / make_cartesian are translated over an abstract record of library functions and the round trips are "
+        "proved over the reals (cos, sin, arg of x+iy, Euclidean norm); numpy's float trigonometry is A-FLOAT.",
         "Lean 4 proof (field algebra, list membership) on source-generated predicates + exact differential correspondence",
         "DESIGN.md §7 C17"),
     "C06": (
@@ -98,8 +101,10 @@ CLAIMED = {
         "and squared relaxed error < tolerance^2; exact lattice points are selected with their true indices; the returned "
         "lattice is the weighted least-squares fit of the selected peaks (C06); parallel/zero start vectors and too few "
         "matches give the invalid match; translation invariance of the indices; operators and source text of both rounds "
-        "pinned. NOT proved: the quantitative robustness window (start within ~1 px / 0.2 px, 0.3 px inliers kept, "
-        "half-cell outliers rejected) and rotation equivariance - decided by the differential oracle only.",
+        "pinned; rigid equivariance: for every rational orthogonal map (rotations, reflections) and translation the match "
+        "of the moved inputs is the moved match (same selector and indices, lattice mapped), invalid stays invalid. NOT "
+        "proved: the quantitative robustness window (start within ~1 px / 0.2 px, 0.3 px inliers kept, half-cell outliers "
+        "rejected) and irrational rotation angles - decided by the differential oracle only.",
         "Lean kernel + standard axioms; translator; A-LA; rank-deficient selections (minimum-norm lstsq) not modelled; the "
         "robustness clause is checked with a reference re-implementation and preconditions derived from the selection formula.",
         "Lean 4 proof (partial: invariants, selection rule, WLS result) + exact-rational differential correspondence of both rounds",
@@ -109,8 +114,13 @@ CLAIMED = {
         "window border with the cut-out inside the map; refined = centre + COM - r; elevation from slopes at distance >= "
         "3/2 (constants and comparison pinned to the current source); re-anchoring _shift/_unshift; log argument x-min+1 "
         "(per crop / per frame); index map of the correlation for every size parity (ifftshift centres the mask on the "
-        "evaluated pixel; fftshift counterexample). ASSUMED: FFT product = circular convolution (A-FFT) - the real maps are "
-        "compared with the model's exact direct sum; real kernels compared stage by stage with the exact model.",
+        "evaluated pixel; fftshift counterexample); the numba kernels center_of_mass / refine_center / peak_elevation are "
+        "translated from the source on every run (loops -> sums / running minima) and the model's refinement equals the "
+        "generated one, its squared elevation the square of the generated one (abstract sqrt); the convolution theorem on "
+        "ZMod H x ZMod W: the model's direct circular sum IS the inverse 2-D DFT of the product of the DFTs read at the "
+        "ifftshift index, for every size. ASSUMED: rfft2 / irfft2 compute those transforms (Hermitian-packed, rounded) - "
+        "the real maps are compared with the model's exact direct sum; real kernels compared stage by stage and the composed "
+        "model end to end with the implementation.",
         "Lean kernel + standard axioms; translator; A-FFT, A-FLOAT (float32 kernels vs exact arithmetic within stated "
         "tolerances).",
         "Lean 4 proof (partial) on source-generated kernel logic + stage-wise exact differential correspondence + brute-force oracle",
@@ -120,7 +130,11 @@ CLAIMED = {
         "storage without wrap-around (uint16 counterexample); centre of mass of non-negative weights lies in the cut-out so "
         "|refined - centre| <= r <= 2; positive COM total when r >= 1 (no 0/0); elevation >= 0 and taken over a non-empty "
         "set for maps >= 4 px; every upsampling offset has modulus <= 0.75 + 0.5/us; upsampling writes only refineds; "
-        "cut-out / crop index safety. Finiteness of FFT/log themselves is assumed (A-FLOAT).",
+        "cut-out / crop index safety; END TO END on the composed pipeline model (crop -> log -> correlation -> kernels -> "
+        "re-anchoring -> block loop, both pipelines): for every frame, mask, peak, crop size and buffer count every output "
+        "entry is filled with the result of its own peak, the centre lies in the window, the height is the maximum of the "
+        "window's correlation map attained at the centre, the refined position is within 2 px. Finiteness of FFT/log "
+        "themselves is assumed (A-FLOAT).",
         "Lean kernel + standard axioms; translator; A-FLOAT; numba execution modes (JIT / bounds-checked / interpreter) are "
         "exercised by the harness, not modelled.",
         "Lean 4 proof on source-generated definitions + oracle in three numba execution modes",
@@ -130,8 +144,11 @@ CLAIMED = {
         "windows stay inside; results are re-anchored additively; the log argument is invariant under adding a constant "
         "(the minimum moves with it); cyclic translation of the frame cyclically translates the full-frame correlation map "
         "for both shift kinds and every size; transposition commutes with the zero-padded window and both axes are treated "
-        "alike by masks and refinement. Float32 rounding under cyclic shifts and the transposition of the complete "
-        "evaluation (row-major tie-breaking) are oracle-only.",
+        "alike by masks and refinement; END TO END on the composed pipeline model: translation equivariance of the crop-based "
+        "method (windows inside), offset invariance of the full-frame method (all peaks) and of the crop-based method "
+        "(windows inside), and transposition equivariance of evaluation kernels, correlation map and crop-based pipeline "
+        "for maps with a unique maximiser (tie counterexample machine-checked). Float32 rounding under cyclic shifts is "
+        "oracle-only.",
         "Lean kernel + standard axioms; translator; A-FFT / A-FLOAT for the paired-run tolerances.",
         "Lean 4 proof (exact arithmetic, modular index algebra) + paired differential runs",
         "DESIGN.md §7 C14"),
@@ -168,7 +185,8 @@ CLAIMED = {
         "Partial proof: get_correlation inverts with the frame's shape and uses ifftshift (source pinned), hence a "
         "pixel-centred feature is read with the mask centre on that pixel for even, odd and non-square shapes; on the "
         "circular frame separated disks give centre values linear in brightness with one common slope (brightness order = "
-        "height order). peak_local_max and strict local maximality for non-matching templates are oracle-only.",
+        "height order); the map of get_correlation is the inverse 2-D DFT of the product of the DFTs at the ifftshift index "
+        "for every shape (convolution theorem). peak_local_max and strict local maximality for non-matching templates are oracle-only.",
         "Lean kernel + standard axioms; translator; A-FFT, A-EXT (skimage).",
         "Lean 4 proof (partial) + exact small-shape correspondence + disk-field oracle",
         "DESIGN.md §7 C07"),
@@ -177,7 +195,9 @@ CLAIMED = {
         "order inside and between partitions) the stored result of a frame is its stand-alone per-frame result, given that a "
         "frame's output does not depend on task data left by earlier frames - which is C09's theorem; what the UDFs pass to "
         "the frame routines (rounded peaks + rounded zero shift, buffers, limit, crop function) is pinned to the source; "
-        "buffer count and crop back-end are irrelevant by C08 / C13. Sparse UDF: tile sums decompose exactly when every "
+        "buffer count and crop back-end are irrelevant by C08 / C13; concretely (fast_udf_schedule_result): for the composed "
+        "crop-based pipeline, any schedule, any defining crop back-end, any buffer count and any buffer residue the stored "
+        "result of a frame is the stand-alone pipeline on that frame with peaks round(peaks) + round(zero shift). Sparse UDF: tile sums decompose exactly when every "
         "tile sees the frame minimum; otherwise the result depends on the tiling (machine-checked counterexample = known "
         "finding D10); mask centre lands on peak + step offset; zero_shift rejected (source pinned).",
         "Lean kernel + standard axioms; translator; A-LT (protocol stand-in), A-FFT/A-FLOAT; D10 is a known finding.",
